@@ -13,6 +13,9 @@ CHECKS = {
  "C01": ("table extraction from SSA (operator, op-assign, width, literal and type-name tables) compared with each other and with the reference GooseLang notation; pass-through audit; let-scope rules shared with C05",
          "Decides necessary conditions of meaning preservation that hold for every program at once: each Go operator is printed with GooseLang's notation for it, op-assign agrees with the plain operator, + is append exactly for strings, integer widths/literals/type names/conversions are consistent, and every handler that translates a construct as its operand is audited. Level 'other': the semantic equality itself needs GooseLang's semantics (Perennial) and is not decided.",
          "GooseLang semantics are outside the repository. Four known findings (type assertion dropped, integer conversion pass-through, two let-scope leaks).", "DESIGN.md §4 C01"),
+ "C02": ("interprocedural AST-field consumption analysis on SSA (per node value, summaries to a fixpoint), slice-arity bounds from must-facts, path-enumerated token dispatch, spelling-recogniser enumeration, control-effect facts",
+         "Decides for every input program at once the translator-side conditions of reject-or-translate: every meaning-carrying field of every inspected go/ast node is read by a guard or a translation, constant indices cover their slices, token dispatch has no silent default, meaning is not chosen by spelling where a predeclared name is meant, and return/break/continue are translated only where their control effect is available (with a sound must-end analysis). Level 'other'.",
+         "That an accepted construct's translation includes Go's behaviour is C01's semantic core. Known findings: type-assertion type ignored, package/type look-alikes by spelling (11 sites).", "DESIGN.md §4 C02"),
  "C03": ("path-enumerated case tables of the sync translators compared with the reference library mapping; recogniser constant sets; dispatch-order facts; spawn-shape facts",
          "Decides the translator-side necessary conditions for concurrent programs: every sync method/function is mapped to the GooseLang library function of the reference table and nothing else is, the type recognisers accept exactly *sync.Mutex/Cond/WaitGroup and are consulted before the generic method path, go statements are translated only for argument-less function literals with no control effect. Level 'other'.",
          "Interleavings of the emitted program under GooseLang's scheduler are not decided (scheduler and libraries are not in the repository).", "DESIGN.md §4 C03"),
